@@ -219,13 +219,13 @@ def run(run):
     rng = run.rng
     batch = c05.Batch(run)
     bases = []
-    for n in range(run.budget(400, 4000)):
+    for n in range(run.budget(400, 1500)):
         secs = ld.gen_doc(rng, spell=(None if n % 2 else (n // 2) % 7))
         bases.append(("generated", secs, rng.choice(["\n", "\n", "\r\n"]), rng.random() < 0.8))
     for name, secs in corpus_docs():
         if any(s["kind"] in ("V", "W", "P", "X") for s in secs):
             bases.append(("corpus:" + name, secs, "\n", True))
-    per_base = run.budget(5, 25)
+    per_base = run.budget(5, 14)
     for origin, secs, eol, fin in bases:
         text = ld.render(secs, eol, fin)
         if "err" in ld.read_full(text):
